@@ -354,7 +354,11 @@ func (s *Sim) Adopt(g *Gor) {
 // Yield parks the calling goroutine until the scheduler grants it the next
 // step. It returns the caller's identity. The caller holds the grant until it
 // parks again, blocks, or exits.
-func (s *Sim) Yield(desc string) *Gor {
+func (s *Sim) Yield(desc string) *Gor { return s.YieldAfter(desc, 0) }
+
+// YieldAfter is Yield for a goroutine that has nothing to do before d of virtual time has passed (a lock it
+// wants is held): the scheduler does not consider it until then, so whoever holds the lock gets to run.
+func (s *Sim) YieldAfter(desc string, d time.Duration) *Gor {
 	g := s.Self()
 	s.mu.Lock()
 	if s.aborted {
@@ -366,6 +370,9 @@ func (s *Sim) Yield(desc string) *Gor {
 		runtime.Goexit()
 	}
 	p := &parked{g: g, desc: desc, ch: make(chan bool)}
+	if d > 0 {
+		p.stallUntil = time.Now().Add(d)
+	}
 	if _, dup := s.parked[g.ID]; dup {
 		s.Ambiguous++
 		g = &Gor{ID: g.ID + "!dup" + strconv.Itoa(s.Ambiguous), Goid: g.Goid, Epoch: g.Epoch, Owner: g.Owner}
